@@ -194,7 +194,8 @@ Proof.
   intros e c1 c2 H. repeat split; intros.
   - unfold ws_processed. rewrite (ws_limit_indep e c1 c2 H). reflexivity.
   - unfold ws_session. rewrite (ws_limit_indep e c1 c2 H).
-    rewrite !ws_reported_wiring, H. reflexivity.
+    generalize (ws_reported_wiring c1) (ws_reported_wiring c2). generalize (ws_reported_limit c1) (ws_reported_limit c2).
+    intros r1 r2 -> ->. rewrite H. reflexivity.
   - unfold http_result. rewrite (http_limit_indep e c1 c2 H), (http_reported_indep e c1 c2 H). reflexivity.
 Qed.
 
@@ -225,7 +226,8 @@ Lemma ws_continues e c msgs evs :
   ws_session e c msgs = Some evs -> evs = map (ws_expected c) msgs.
 Proof.
   unfold ws_session. destruct (ws_limit_of e c) as [l|] eqn:E; [|discriminate].
-  apply ws_wiring in E. subst l. intro H. inversion H. rewrite ws_loop_open, ws_reported_wiring. reflexivity.
+  apply ws_wiring in E. subst l. intro H. inversion H. rewrite ws_loop_open.
+  generalize (ws_reported_wiring c). generalize (ws_reported_limit c). intros r ->. reflexivity.
 Qed.
 
 (* spelled out: an oversized message in the middle yields one -32007 and everything after it is still served *)
